@@ -2718,7 +2718,31 @@ func (e *Exec) doAppend(a, b Value, c *ssa.CallCommon) Value {
 	if c != nil {
 		et = under(c.Args[0].Type()).(*types.Slice).Elem()
 	}
+	// within capacity: Go writes into the backing array (every slice sharing it sees the elements)
+	if !as.isNil && as.arr != nil && as.n+bs.n <= as.cap {
+		if arr, ok := as.arr.val.(*ArrayVal); ok && as.off+as.n+bs.n <= len(arr.elems) {
+			for k, v := range e.sliceElems(bs) {
+				e.store(&Pointer{obj: as.arr, path: []int{as.off + as.n + k}}, v)
+			}
+			return &SliceVal{arr: as.arr, off: as.off, n: as.n + bs.n, cap: as.cap}
+		}
+	}
+	// growth: a fresh backing array; capacity by the runtime's doubling rule for small slices
+	// (the size-class rounding on top of it is not modelled)
 	elems := append(append([]Value{}, e.sliceElems(as)...), e.sliceElems(bs)...)
+	need := len(elems)
+	newcap := need
+	if as.cap > 0 && 2*as.cap > need && as.cap < 256 {
+		newcap = 2 * as.cap
+	}
+	if newcap > need {
+		zero := e.zero(et)
+		for len(elems) < newcap {
+			elems = append(elems, zero)
+		}
+		sl := e.mkSlice(et, elems)
+		return &SliceVal{arr: sl.arr, off: 0, n: need, cap: newcap}
+	}
 	return e.mkSlice(et, elems)
 }
 
